@@ -219,7 +219,13 @@ def cases(draw):
     if k == 0:
         return {"spec": spec, "use_antecedent": True, "row": draw(gen.input_row(spec)), "degree": None, "history": hist}
     if k == 1:
-        return {"spec": spec, "degree": draw(st.lists(deg, min_size=2, max_size=5)), "history": hist}
+        degs = draw(st.lists(deg, min_size=2, max_size=5))
+        if draw(st.booleans()):  # a NaN row inside the batch ...
+            degs[draw(st.integers(0, len(degs) - 1))] = math.nan
+            if len(r["cons"]) >= 2 and draw(st.booleans()):  # ... and a later conclusion under `not`
+                r["cons"][-1]["hedges"] = ["not"]
+                r["cons"][0]["hedges"] = []
+        return {"spec": spec, "degree": degs, "history": hist}
     return {"spec": spec, "degree": draw(deg), "history": hist}
 
 
